@@ -75,6 +75,9 @@ type Case struct {
 	FindSucc bool          `json:"findsucc"` // FindSuccessors set (to a function calling content.Successors) instead of nil
 	MountAlways bool       `json:"mountalways"` // every candidate repository has the blob (Mount always succeeds)
 	PreTag   int           `json:"pretag"`   // -1, or a pre-populated node the destination reference already points to before the call
+	CancelAt int           `json:"cancelat"` // 0 none | -1 the caller's context is already ended when the call starts | -2 it ends when the
+	// source reference has been resolved (before the root task starts) | k>0 it ends right after the k-th recorded event
+	CancelDeadline bool    `json:"canceldeadline"` // the context ends by an expired deadline instead of cancel()
 	Slow     bool          `json:"slow"`     // storage latencies of 0.2-2 ms (contention on the limiter)
 	Fast     bool          `json:"fast"`     // latencies are yields only (no sleeps): the small-scope enumeration
 	Sched    bool          `json:"sched"`    // run under testing/synctest with a PRNG-controlled scheduler
@@ -106,6 +109,8 @@ type rec struct {
 	lmu    sync.Mutex
 	lat    *common.Rand
 	bytes  [][]byte // generator's bytes per node (what a successful mount makes available)
+	cancelAt int
+	cancel   func()
 	fast   bool
 	slow   bool
 	seed   uint64
@@ -124,6 +129,10 @@ func (r *rec) ev(tok string, dsrc, ddst int) {
 	r.mu.Lock()
 	if tok != "" {
 		r.toks = append(r.toks, tok)
+		if r.cancelAt > 0 && len(r.toks) == r.cancelAt && r.cancel != nil && !strings.HasPrefix(tok, "RT.") {
+			r.toks = append(r.toks, "CX") // the caller's context ends here
+			r.cancel()
+		}
 	}
 	r.srcIn += dsrc
 	r.dstIn += ddst
@@ -132,6 +141,17 @@ func (r *rec) ev(tok string, dsrc, ddst int) {
 	}
 	if r.dstIn > r.dstMax {
 		r.dstMax = r.dstIn
+	}
+	r.mu.Unlock()
+}
+
+// cancelAfterResolve ends the caller's context when the source reference has just been resolved.
+func (r *rec) cancelAfterResolve() {
+	r.mu.Lock()
+	if r.cancelAt == -2 && r.cancel != nil {
+		r.cancelAt = 0
+		r.toks = append(r.toks, "CX")
+		r.cancel()
 	}
 	r.mu.Unlock()
 }
@@ -187,6 +207,7 @@ func (c *closeRec) Close() error {
 }
 
 func (s *srcW) Fetch(ctx context.Context, d ocispec.Descriptor) (io.ReadCloser, error) {
+	ctx = context.WithoutCancel(ctx) // the stores do not see the caller's cancellation: only the copy's own control flow does
 	if s.r.quiet.Load() {
 		s.r.mu.Lock()
 		s.r.pro = append(s.r.pro, s.r.node(d))
@@ -214,7 +235,9 @@ func (s *srcW) Exists(ctx context.Context, d ocispec.Descriptor) (bool, error) {
 }
 
 func (s *srcW) Resolve(ctx context.Context, ref string) (ocispec.Descriptor, error) {
-	return s.under.Resolve(ctx, ref)
+	d, err := s.under.Resolve(context.WithoutCancel(ctx), ref)
+	s.r.cancelAfterResolve()
+	return d, err
 }
 
 // srcWG additionally implements content.PredecessorFinder (ExtendedCopy needs a graph source).
@@ -228,6 +251,8 @@ func (s srcWG) Predecessors(ctx context.Context, d ocispec.Descriptor) ([]ocispe
 type srcWRef struct{ *srcW }
 
 func (s srcWRef) FetchReference(ctx context.Context, ref string) (ocispec.Descriptor, io.ReadCloser, error) {
+	ctx = context.WithoutCancel(ctx)
+	defer s.r.cancelAfterResolve()
 	note := func(d ocispec.Descriptor) {
 		s.r.mu.Lock()
 		s.r.pro = append(s.r.pro, s.r.node(d)) // a source read of the root, in the prologue
@@ -279,6 +304,7 @@ func (d *dstW) Fetch(ctx context.Context, t ocispec.Descriptor) (io.ReadCloser, 
 }
 
 func (d *dstW) Exists(ctx context.Context, t ocispec.Descriptor) (bool, error) {
+	ctx = context.WithoutCancel(ctx)
 	n := d.r.node(t)
 	defer d.lockDigest(t)()
 	d.r.ev(fmt.Sprintf("XB.%d", n), 0, 1)
@@ -298,6 +324,7 @@ func (d *dstW) Exists(ctx context.Context, t ocispec.Descriptor) (bool, error) {
 }
 
 func (d *dstW) push(ctx context.Context, t ocispec.Descriptor, rd io.Reader, ref string) error {
+	ctx = context.WithoutCancel(ctx)
 	n := d.r.node(t)
 	isRef := 0
 	if ref != "" {
@@ -336,6 +363,7 @@ func (d *dstW) Push(ctx context.Context, t ocispec.Descriptor, rd io.Reader) err
 }
 
 func (d *dstW) Tag(ctx context.Context, t ocispec.Descriptor, ref string) error {
+	ctx = context.WithoutCancel(ctx)
 	n := d.r.node(t)
 	d.r.ev(fmt.Sprintf("TB.%d", n), 0, 1)
 	d.r.delay()
@@ -358,6 +386,7 @@ func (d *dstW) Resolve(ctx context.Context, ref string) (ocispec.Descriptor, err
 // source read) or the content is requested through getContent and uploaded, as
 // remote.Repository does after a 202 answer.
 func (d *dstW) mount(ctx context.Context, t ocispec.Descriptor, fromRepo string, getContent func() (io.ReadCloser, error)) error {
+	ctx = context.WithoutCancel(ctx)
 	n := d.r.node(t) // no digest lock here: getContent re-enters the wrappers; mount cases have no twins
 	d.r.ev(fmt.Sprintf("MB.%d", n), 0, 1)
 	d.r.delay()
@@ -674,7 +703,7 @@ func Execute(c *Case) *Result {
 			return nil
 		}
 	}
-	r := &rec{idx: map[dkeyT]int{}, lat: common.NewRand(c.Seed), fast: c.Fast, slow: c.Slow, seed: c.Seed, always: c.MountAlways}
+	r := &rec{idx: map[dkeyT]int{}, lat: common.NewRand(c.Seed), cancelAt: c.CancelAt, fast: c.Fast, slow: c.Slow, seed: c.Seed, always: c.MountAlways}
 	for _, n := range g.Nodes {
 		if _, dup := r.idx[keyOf(n.Desc)]; dup {
 			res.SetupErr = fmt.Errorf("generator produced two nodes with the same descriptor (node %d)", n.ID)
@@ -738,20 +767,36 @@ func Execute(c *Case) *Result {
 	}
 
 	runCopy := func() {
+		// the context given to Copy / CopyGraph (created here: under synctest it must belong to the bubble);
+		// ctx stays alive for setup and observation
+		callCtx, cancelCall := context.WithCancel(ctx)
+		defer cancelCall()
+		if c.CancelAt == -1 && c.CancelDeadline {
+			var cf context.CancelFunc
+			callCtx, cf = context.WithDeadline(ctx, time.Now().Add(-time.Second))
+			defer cf()
+		}
+		r.mu.Lock()
+		r.cancel = cancelCall
+		if c.CancelAt == -1 {
+			r.toks = append(r.toks, "CX")
+			cancelCall()
+		}
+		r.mu.Unlock()
 		switch c.Mode {
 		case "x", "X":
 			xo := oras.ExtendedCopyOptions{ExtendedCopyGraphOptions: oras.ExtendedCopyGraphOptions{CopyGraphOptions: gopts}}
 			if c.Mode == "x" {
-				res.Err = oras.ExtendedCopyGraph(ctx, srcWG{sw}, dw, g.Nodes[c.Root].Desc, xo.ExtendedCopyGraphOptions)
+				res.Err = oras.ExtendedCopyGraph(callCtx, srcWG{sw}, dw, g.Nodes[c.Root].Desc, xo.ExtendedCopyGraphOptions)
 			} else {
-				res.Returned, res.Err = oras.ExtendedCopy(ctx, srcWG{sw}, c.SrcRef, dw, c.DstRef, xo)
+				res.Returned, res.Err = oras.ExtendedCopy(callCtx, srcWG{sw}, c.SrcRef, dw, c.DstRef, xo)
 			}
 		case "g":
 			var d content.Storage = dw
 			if c.Mount {
 				d = dstWMount{dw}
 			}
-			res.Err = oras.CopyGraph(ctx, sw, d, g.Nodes[c.Root].Desc, gopts)
+			res.Err = oras.CopyGraph(callCtx, sw, d, g.Nodes[c.Root].Desc, gopts)
 		default:
 			opts := oras.CopyOptions{CopyGraphOptions: gopts}
 			if c.MapRoot >= 0 {
@@ -787,7 +832,7 @@ func Execute(c *Case) *Result {
 			case c.Mount:
 				d = dstWMount{dw}
 			}
-			res.Returned, res.Err = oras.Copy(ctx, s, c.SrcRef, d, c.DstRef, opts)
+			res.Returned, res.Err = oras.Copy(callCtx, s, c.SrcRef, d, c.DstRef, opts)
 		}
 	}
 	if c.Sched && T != nil { // (the plain binary has no testing.T: free-running instead)
